@@ -315,6 +315,38 @@ def r8_suffix_selection(idx, r):
                       "the two letters are added to this composition's macroscopic sums")
 
 
+def r9_unconditional_structure_check(idx, r):
+    """(a) Group structures are write-once properties: ASSIGNING the other library's bounds is what rejects a different
+    structure. In _mergeNeutronEnergies / _mergeGammaEnergies (any helper that assigns an energy-bounds property from
+    `other`) that assignment must happen on every path, not only the first time something else was unset.
+    (b) The MPI and the serial branch of MacroXSGenerator.invokeHook are siblings: both must hand the same keyword
+    arguments (libType!) to createMacrosFromMicros."""
+    m = idx.module("armi.nuclearDataIO.xsLibraries")
+    n = 0
+    for f in m.all_funcs():
+        sts = [x for x in walk_local(f.node) if isinstance(x, ast.Assign) and isinstance(x.targets[0], ast.Attribute) and dotted(x.targets[0].value) == "self"
+               and "EnergyUpperBounds" in x.targets[0].attr and isinstance(x.value, ast.Attribute) and dotted(x.value.value) not in (None, "self")]
+        for st_ in sts:
+            n += 1
+            conds = [(norm(t), pol) for t, pol in path_conditions(f.node, st_)]
+            r.require(not conds, f"{f.qualname}:{st_.targets[0].attr}:assigned-unconditionally", f, node=st_,
+                      msg=f"`{norm(st_)}` runs only when {conds}: on the other paths a library with a different group structure is merged without the write-once "
+                          "property ever comparing the two structures")
+    if n < 2:
+        raise AnalysisError(f"only {n} group-structure assignments from the other library found")
+    g = idx.method("armi.physics.neutronics.macroXSGenerationInterface.MacroXSGenerator", "invokeHook")
+    if g is None:
+        raise AnchorMissing("MacroXSGenerator.invokeHook")
+    calls = [c for c in iter_calls(g.node) if call_attr(c) == "createMacrosFromMicros"]
+    if len(calls) < 2:
+        raise AnalysisError("invokeHook: the MPI and serial calls of createMacrosFromMicros were not both found")
+    kws = [tuple(sorted((k.arg, norm(k.value)) for k in c.keywords)) for c in calls]
+    for c, kw in zip(calls, kws):
+        r.require(kw == max(kws, key=len) and len(set(kws)) == 1, f"invokeHook:sibling-call:{norm(c)[:50]}", g, node=c,
+                  msg=f"the sibling branches call createMacrosFromMicros with different keywords {sorted(set(kws))}: in one of them the requested library type falls back to the "
+                      "default and gamma macroscopic data are built from neutron microscopic data")
+
+
 def run(idx, chk):
     chk.explanation = (
         "C10: metadata/collection merges never write into their inputs and raise on conflicts; direct stores into the target library happen only "
@@ -337,3 +369,5 @@ def run(idx, chk):
                  necessary="'different group structures are rejected' also when they differ in only some bounds")
     chk.run_rule("R10.8", "nuclides of a composition are selected by comparing the XS ID with the label's suffix field only", lambda r: r8_suffix_selection(idx, r), floor=1,
                  necessary="macroscopic sums are 'additive over nuclides' of ONE composition")
+    chk.run_rule("R10.9", "group-structure assignments from the other library are unconditional; sibling branches pass the same keywords to createMacrosFromMicros", lambda r: r9_unconditional_structure_check(idx, r), floor=4,
+                 necessary="'different group structures are rejected'; macroscopic data are the density-weighted sums of THE REQUESTED microscopic data")
